@@ -363,7 +363,7 @@ fn format_expression_internal(
     }
 }
 
-/// Determines whether the provided [`Expression`] is a brackets string, i.e. `[[string]]`
+/// Determines whether the provided [`Expression`] is, or once formatted begins with, a brackets string, i.e. `[[string]]`
 /// We care about this because `[ [[string] ]` is invalid syntax if we remove the whitespace
 pub fn is_brackets_string(expression: &Expression) -> bool {
     match expression {
@@ -376,6 +376,10 @@ pub fn is_brackets_string(expression: &Expression) -> bool {
         ),
         #[cfg(feature = "luau")]
         Expression::TypeAssertion { expression, .. } => is_brackets_string(expression),
+        // Redundant parentheses around the string will be removed: `([[string]])`
+        Expression::Parentheses { expression, .. } => is_brackets_string(expression),
+        // The brackets string may be the first operand: `[[string]] .. x`
+        Expression::BinaryOperator { lhs, .. } => is_brackets_string(lhs),
         _ => false,
     }
 }
